@@ -13,8 +13,11 @@ harness checks `Build.normal` on every generated formula):
 * `t.wf`      : well-typed with the constructors' arities (`Impl/WF.lean`);
 * `normal t`  : the constructors' normal form (`And` has ≥ 2 arguments, no `Not(Not x)`, payload
                 widths as the constructors compute them, …);
-* `ArrOK t`   : **restriction** — no array value with assigned pairs (`Array(idx, default)` only). The
-                theorems that need it are named `_partial`; array values with pairs are covered by K/S.
+* `ConstKeys t` : the keys of every array value in `t` are constant nodes (Bool/Int/Real/BV/String
+                constants) — what `Array(idx, default, {k: v …})` enforces for every index sort that is
+                not itself an array sort. The only restriction left on array values: index sorts that are
+                array sorts *with* assigned pairs (two distinct array-value constants can denote the same
+                array) are outside the semantic theorems; `subst_type` needs no guard at all.
 -/
 namespace PySMT.C05
 open PySMT.Subst PySMT.Build
@@ -41,21 +44,20 @@ theorem handlerOf_nil (envMs : Bool) : handlerOf envMs [] = noInterp := rfl
 /-- **Substitution lemma, `MGSubstituter`**: for every symbol-keyed type-correct map `σ`, every
 interpretation `I` and every term `t` such that no free symbol of a replacement falls under a
 quantifier binding it (`NoCapture`), the value of the result under `I` is the value of `t` under `I`
-updated with the values of the replacement terms.
-`_partial`: `ArrOK t` (no array value with assigned pairs). -/
-theorem subst_lemma_mg_partial (envMs : Bool) (t : Term) (σ : SMap) (I : Interp) (hI : I.WF)
-    (hwf : t.wf = true) (hn : normal t = true) (ha : ArrOK t = true) (hσ : SMapOK σ)
+updated with the values of the replacement terms. (Array values: keys are constants, `ConstKeys`.) -/
+theorem subst_lemma_mg (envMs : Bool) (t : Term) (σ : SMap) (I : Interp) (hI : I.WF)
+    (hwf : t.wf = true) (hn : normal t = true) (ha : ConstKeys t = true) (hσ : SMapOK σ)
     (hnc : NoCapture σ t = true) :
     eval I (substMG envMs [] σ.toTMap t) = eval (updSyms I σ) t := by
   unfold substMG; rw [handlerOf_nil]
   exact subst_sem false t σ I hI hwf hn ha hσ hnc (fun e => by cases e)
 
-/-- **Substitution lemma, `MSSubstituter`**. `_partial`: `ArrOK t`, and `MSSafe σ` — no replacement
-is the negation of another key. Without it the statement is false for the real code and for the
-model alike: `Not(a)[a ↦ Not(x), x ↦ y]` is rebuilt to `x`, which the most-specific strategy looks
-up again and replaces by `y` (known finding F50; the harness reproduces it). -/
+/-- **Substitution lemma, `MSSubstituter`**. `_partial`: `MSSafe σ` — no replacement is the negation
+of another key. Without it the statement is false for the real code and for the model alike:
+`Not(a)[a ↦ Not(x), x ↦ y]` is rebuilt to `x`, which the most-specific strategy looks up again and
+replaces by `y` (known finding F50; the harness reproduces it). -/
 theorem subst_lemma_ms_partial (envMs : Bool) (t : Term) (σ : SMap) (I : Interp) (hI : I.WF)
-    (hwf : t.wf = true) (hn : normal t = true) (ha : ArrOK t = true) (hσ : SMapOK σ)
+    (hwf : t.wf = true) (hn : normal t = true) (ha : ConstKeys t = true) (hσ : SMapOK σ)
     (hnc : NoCapture σ t = true) (hsafe : MSSafe σ) :
     eval I (substMS envMs [] σ.toTMap t) = eval (updSyms I σ) t := by
   unfold substMS; rw [handlerOf_nil]
@@ -85,27 +87,35 @@ theorem subst_empty (ms envMs : Bool) (t : Term) (hn : normal t = true) :
   keys_not_free_untouched ms envMs t [] hn (fun _ h => by cases h)
 
 /-- **Type preservation**: a type-correct term-keyed map (every value well-typed, of the type of
-its key) and type-correct interpretations give a well-typed result of the type of `t`.
-`_partial`: `ArrOK t`; interpretations instantiated by the default `MGSubstituter`. -/
-theorem subst_type_partial (ms : Bool) (ι : IMap) (hι : IMapOKAll ι) (σ : Subst.TMap) (hσ : TyMap σ) (t : Term)
-    (hwt : t.wt = true) (hn : normal t = true) (ha : ArrOK t = true) :
-    let r := if ms then substMS false ι σ t else substMG false ι σ t
+its key) and type-correct interpretations give a well-typed result of the type of `t` — every term
+(array values included), both strategies, both environment defaults. -/
+theorem subst_type (ms envMs : Bool) (ι : IMap) (hι : IMapOKAll ι) (σ : Subst.TMap) (hσ : TyMap σ) (t : Term)
+    (hwt : t.wt = true) (hn : normal t = true) :
+    let r := if ms then substMS envMs ι σ t else substMG envMs ι σ t
     r.wt = true ∧ r.typeOf = t.typeOf := by
   cases ms <;> simp only [substMS, substMG, Bool.false_eq_true, if_false, if_true]
-  · exact substG_type false (handlerOf_typed hι.ok) t σ hσ hwt hn ha
-  · exact substG_type true (handlerOf_typed hι.ok) t σ hσ hwt hn ha
+  · exact substG_type false (handlerOf_typed envMs hι.ok) t σ hσ hwt hn
+  · exact substG_type true (handlerOf_typed envMs hι.ok) t σ hσ hwt hn
 
-/-- **Interpretation lemma** (combined with a symbol-keyed substitution): with well-formed closed
-quantifier-free interpretations `ι`, the value of the result is the value of `t` under `I` with the
-replaced symbols updated and every interpreted function symbol denoting its body.
-`_partial`: `ArrOK t`; bodies quantifier-free (`FiOK.qf`: nothing of an actual argument can be
-captured); `MGSubstituter` with the default environment class (`MSSubstituter` with `σ = []` computes
-the same term). -/
-theorem interp_lemma_partial (ι : IMap) (hι : IMapOKAll ι) (t : Term) (σ : SMap) (I : Interp) (hI : I.WF)
-    (hwf : t.wf = true) (hn : normal t = true) (ha : ArrOK t = true) (hσ : SMapOK σ)
+/-- **Interpretation lemma** (combined with a symbol-keyed substitution), `MGSubstituter`: with
+well-formed closed quantifier-free interpretations `ι`, the value of the result is the value of `t`
+under `I` with the replaced symbols updated and every interpreted function symbol denoting its body.
+Either environment default; under the `MSSubstituter` default (the bodies are instantiated
+most-specifically) no formal parameter may be of sort Bool (`NoBoolFormals`, the F50 situation).
+`_partial`: bodies quantifier-free (`FiOK.qf`: nothing of an actual argument can be captured). -/
+theorem interp_lemma_partial (envMs : Bool) (ι : IMap) (hι : IMapOKAll ι) (henv : envMs = true → NoBoolFormals ι)
+    (t : Term) (σ : SMap) (I : Interp) (hI : I.WF)
+    (hwf : t.wf = true) (hn : normal t = true) (ha : ConstKeys t = true) (hσ : SMapOK σ)
     (hnc : NoCapture σ t = true) :
-    eval I (substMG false ι σ.toTMap t) = eval (upd I σ (defsOf ι)) t :=
-  subst_interp_sem hι t σ I hI hwf hn ha hσ hnc
+    eval I (substMG envMs ι σ.toTMap t) = eval (upd I σ (defsOf ι)) t :=
+  subst_interp_sem envMs hι henv t σ I hI hwf hn ha hσ hnc
+
+/-- **Interpretation lemma, `MSSubstituter`** (interpretations only, either environment default —
+in particular the all-most-specific configuration `envMs = true`). Same `_partial` as above. -/
+theorem interp_lemma_ms_partial (envMs : Bool) (ι : IMap) (hι : IMapOKAll ι) (henv : envMs = true → NoBoolFormals ι)
+    (t : Term) (I : Interp) (hI : I.WF) (hwf : t.wf = true) (hn : normal t = true) (ha : ConstKeys t = true) :
+    eval I (substMS envMs ι [] t) = eval (updFns I (defsOf ι)) t :=
+  subst_interp_sem_ms envMs hι henv t I hI hwf hn ha
 
 /-! ## non-vacuity: the hypotheses are satisfiable by non-trivial terms, maps and interpretations -/
 section Examples
@@ -125,14 +135,19 @@ private def σ0 : SMap := [(y, .node .plus [.sym z, .int 1] .none), (pS, .mkNot 
 /-- `f(a, b) = a + b` -/
 private def ι0 : IMap := [(fS, ⟨[aS, bS], .node .plus [.sym aS, .sym bS] .none⟩)]
 
+/-- `Array(Int, x){1 := y, 2 := 0}[z]` : an array value with assigned pairs whose values and default
+are replaced (the pair `1 := y` is dropped by `y ↦ x`, the default changes with `x ↦ …`) -/
+private def tA : Term :=
+  .node .arraySelect [.node .arrayValue [.sym x, .int 1, .sym y, .int 2, .int 0] (.ty .int), .sym z] .none
+
 local macro "term_eval" : tactic => `(tactic| (
-  simp only [Term.wf, Term.typeOf, Term.wt, normal, ArrOK, Term.fv, Term.fnames, normalNode, Op.shapeOK,
+  simp only [Term.wf, Term.typeOf, Term.wt, normal, ConstKeys, pairsOf, List.tail, Op.isConstant, Term.fv, Term.fnames, normalNode, Op.shapeOK,
     Op.isQuantifier, Term.isQF, Term.subterms,
     Term.mkForall, Term.mkAnd, Term.mkNot, Term.var, Term.sym, Term.app, Term.int, Sym.var, List.map, List.all, List.filter,
-    List.flatten, List.append, Term.op, t0, σ0, ι0, x, y, z, pS, fS, aS, bS] <;>
+    List.flatten, List.append, Term.op, t0, tA, σ0, ι0, x, y, z, pS, fS, aS, bS] <;>
   decide))
 
-example : t0.wf = true ∧ normal t0 = true ∧ ArrOK t0 = true := ⟨by term_eval, by term_eval, by term_eval⟩
+example : t0.wf = true ∧ normal t0 = true ∧ ConstKeys t0 = true := ⟨by term_eval, by term_eval, by term_eval⟩
 
 example : NoCapture σ0 t0 = true := by
   simp [NoCapture.eq_def, Term.fv, Op.isQuantifier, SMap.drop, Term.mkForall, Term.mkAnd, Term.mkNot, Term.sym,
@@ -165,6 +180,18 @@ example : IMapOKAll ι0 := by
   subst h
   exact ⟨by term_eval, by term_eval, by term_eval, by term_eval, rfl, by simp [aS, bS, Sym.var], by simp [aS, bS, Sym.var],
     by simp [Term.fv, Term.sym], by term_eval, by term_eval⟩
+
+example : tA.wf = true ∧ ConstKeys tA = true := ⟨by term_eval, by term_eval⟩
+example : normal tA = true := by
+  simp [normal, normalNode, pairsOf, unpairs, pyDict, dictInsert, tA, Term.sym, Term.int, x, y, z, Sym.var,
+    isBvSameWidthOp]
+
+example : NoBoolFormals ι0 := by
+  intro gf h s hs
+  simp only [ι0, List.mem_cons, List.not_mem_nil, or_false] at h
+  subst h
+  simp only [List.mem_cons, List.not_mem_nil, or_false] at hs
+  rcases hs with rfl | rfl <;> simp [aS, bS, Sym.var]
 
 /-- a well-formed interpretation exists -/
 example : ∃ I : Interp, I.WF :=
